@@ -1,5 +1,5 @@
 (* C19 -- lemmas about the rows-of-cells model of fitcsv (Model/Csv.v). *)
-From Coq Require Import NArith ZArith List Bool String Ascii Lia Floats.
+From Coq Require Import NArith ZArith List Bool String Ascii Lia Floats ZifyN ZifyNat ZifyBool.
 Import ListNotations.
 From Fit Require Import Model.Profile Model.Csv gen.CsvConvMode gen.CsvNames gen.CsvLookup.
 Open Scope N_scope.
@@ -314,3 +314,71 @@ Proof.
   first [ discriminate Hmode
         | split; [unfold in_range; cbn; lia|]; split; [vm_compute; discriminate | vm_compute; reflexivity] ].
 Qed.
+
+(* ------------------------------------------------------------------------------------------------ sequences (CSV -> FIT side) *)
+Section Chain.
+Variable parse64 parse32 : string -> option N.
+
+(* a record that convert() treats as a file_id message: "Data" row whose message name resolves to number 0 *)
+Definition is_file_id_row (record : list string) : bool :=
+  match record with
+  | header :: _ :: name :: _ =>
+      String.eqb header "Data" && match resolve_mesg_num name with Some (Some n) => n =? file_id_num | _ => false end
+  | _ => false
+  end.
+Definition count_file_id_rows (rows : list (list string)) : nat := List.length (filter is_file_id_row rows).
+
+(* invariant of convert(): finished sequences = file_id rows seen - 1 (0 before the first one); the counter counts them *)
+Definition chain_inv (st : rstate) (k : nat) : Prop := r_seq st = N.of_nat k /\ List.length (r_done st) = (k - 1)%nat.
+
+Lemma step_row_chain st record st' k :
+  step_row parse64 parse32 st record = Some st' -> chain_inv st k ->
+  chain_inv st' (if is_file_id_row record then S k else k).
+Proof.
+  unfold step_row, is_file_id_row, chain_inv. intros H [Hs Hd].
+  destruct record as [|header [|c1 [|name rest]]]; try (injection H as <-; split; assumption).
+  destruct (String.eqb header "Data"); cbn [andb]; [|injection H as <-; split; assumption].
+  destruct (resolve_mesg_num name) as [[mnum|]|]; [|injection H as <-; split; assumption|discriminate H].
+  destruct (mnum =? file_id_num) eqn:Ef.
+  - (* a file_id row: the sequence counter moves, a sequence is closed unless it is the first *)
+    destruct (r_seq st =? 0) eqn:E0.
+    + apply N.eqb_eq in E0. assert (k = 0%nat) by lia. subst k.
+      destruct (create_mesg parse64 parse32 _ mnum _) as [m|]; [|discriminate H].
+      destruct (m_fields m), (m_devs m); injection H as <-; cbn [r_seq r_done]; split; try reflexivity; cbn in *; lia.
+    + apply N.eqb_neq in E0.
+      destruct (create_mesg parse64 parse32 _ mnum _) as [m|]; [|discriminate H].
+      destruct (m_fields m), (m_devs m); injection H as <-; cbn [r_seq r_done]; rewrite ?app_length; cbn [List.length];
+        split; lia.
+  - destruct (create_mesg parse64 parse32 _ mnum _) as [m|]; [|discriminate H].
+    destruct (m_fields m), (m_devs m); injection H as <-; cbn [r_seq r_done]; split; assumption.
+Qed.
+
+Lemma run_rows_chain rows : forall st st' k,
+  run_rows parse64 parse32 st rows = Some st' -> chain_inv st k ->
+  chain_inv st' (k + count_file_id_rows rows).
+Proof.
+  induction rows as [|r rows IH]; intros st st' k H Hinv; cbn [run_rows] in H.
+  - injection H as <-. unfold count_file_id_rows. cbn. rewrite Nat.add_0_r. exact Hinv.
+  - destruct (step_row parse64 parse32 st r) as [st1|] eqn:E; [|discriminate H].
+    pose proof (step_row_chain st r st1 k E Hinv) as H1. specialize (IH st1 st' _ H H1).
+    unfold count_file_id_rows in *. cbn [filter]. destruct (is_file_id_row r); cbn [List.length]; [|exact IH].
+    replace (k + S (List.length (filter is_file_id_row rows)))%nat with (S k + List.length (filter is_file_id_row rows))%nat by lia. exact IH.
+Qed.
+
+(* the FIT output has one sequence per file_id row of the CSV (one sequence if there is none) *)
+Theorem sequences_follow_file_id rows seqs :
+  rows_to_fit parse64 parse32 rows = Some seqs -> List.length seqs = Nat.max 1 (count_file_id_rows rows).
+Proof.
+  unfold rows_to_fit. destruct (run_rows parse64 parse32 _ rows) as [st|] eqn:E; [|discriminate]. intro H. injection H as <-.
+  pose proof (run_rows_chain rows _ st 0%nat E) as Hc. destruct Hc as [_ Hd]; [split; reflexivity|].
+  rewrite app_length. cbn [List.length]. cbn in Hd. lia.
+Qed.
+End Chain.
+
+(* the row of a message with number 0 is a file_id row, for every option set (names come from the dumped / translated tables) *)
+Lemma file_id_name_resolves : forall v, resolve_mesg_num (mesg_name v 0) = Some (Some 0).
+Proof. intros [|]; vm_compute; reflexivity. Qed.
+(* no other profile message name resolves to 0 *)
+Lemma other_names_do_not_resolve_to_file_id :
+  forallb (fun p => (fst p =? 0) || negb (match resolve_mesg_num (snd p) with Some (Some n) => n =? 0 | _ => false end)) mesg_names = true.
+Proof. vm_compute. reflexivity. Qed.
